@@ -152,6 +152,7 @@ def run(check, an: Analysis):
     _scope.check_foreign_signal_leaves_exit(check, an, 'H')
     # ---- P ------------------------------------------------------------------
     _check_signal_lifecycles(check, an, wrapper)
+    check_own_wakeup_is_fresh(check, an, 'P')
     # ---- S ------------------------------------------------------------------
     _check_subscribe_protocol(check, an)
     # ---- D ------------------------------------------------------------------
@@ -267,6 +268,42 @@ def _own_signal_identified(path, index, handler, fn) -> bool:
             if created and key_truth(event) is True:
                 return True
     return False
+
+
+def check_own_wakeup_is_fresh(check, an: Analysis, rule: str):
+    """
+    postpone() and suspend() wake their caller by a signal made for this one pause: the
+    signal handed to the loop is an Interrupt constructed on the very path that schedules
+    it.  (A signal kept from an earlier pause and armed again would bring a revoked
+    activation that is still queued back to life -- ahead of everything scheduled since.)
+    """
+    module = 'usim._primitives.notification'
+    for name in ('postpone', 'suspend'):
+        fn = an.fn('%s.%s' % (module, name))
+        callee = Callee(fn, None)
+        frame = Frame(fn, None)
+        n, bad = 0, None
+        for path in an.paths(callee):
+            for index, event in enumerate(path.events):
+                if event.kind != 'call' or not is_call_to(event, 'schedule') or \
+                        not isinstance(event.node, ast.Call):
+                    continue
+                call = event.node
+                signal = [kw.value for kw in call.keywords if kw.arg == 'signal'] or \
+                    list(call.args[1:2])
+                if not signal:
+                    continue
+                n += 1
+                made = rules.value_expr(path, index, signal[0])
+                fresh = isinstance(made, ast.Call) and any(
+                    term[0] == 'cls' and an.p.is_subclass(term[1], CORE_INTERRUPT)
+                    for term in an.te.expr_type(made.func, frame))
+                if not fresh:
+                    bad = bad or (path, index)
+        check.instance(rule, '%s:wakes-by-a-signal-of-its-own' % name, bad is None and n > 0,
+                       where_fn(fn), 'the signal scheduled for the caller is an Interrupt '
+                       'constructed for this pause (%d schedule sites on paths)' % n,
+                       path=rules.path_lines(*bad) if bad else None, analysed=n)
 
 
 def _check_signal_lifecycles(check, an: Analysis, wrapper, rule: str = 'P', only=None):
